@@ -1,15 +1,13 @@
 use ::unimock::MockFn as _;
-macro_rules! stamp { ($($item:tt)*) => { #[::entrait::entrait(pub T, mock_api = Mk, unimock, export, no_deps)] $($item)* } }
-stamp! {
-async fn f1(r1: &str) -> String {
+macro_rules! stamp { ([$($params:tt)*] $body:block) => { #[::entrait::entrait(pub T, mock_api = Mk, unimock, export, no_deps)] async fn f1($($params)*) -> String $body } }
+stamp! { [r1: &str] {
     let __args: String = String::new() + &::vt::js(&r1.to_string());
     ::vt::emit("enter", &format!("\"f\":\"c000169::f1\",\"deps\":{},\"args\":[{}]", ::vt::js(&String::from("-")), __args));
     ::vt::yield_once().await;
     let __val = format!("c000169::f1({})", __args);
     ::vt::emit("exit", &format!("\"f\":\"c000169::f1\",\"val\":{}", ::vt::js(&__val)));
     __val
-}
-}
+} }
 
 pub fn run() {
     { ::vt::emit("scenario", "\"case\":\"c000169\",\"sc\":1");
